@@ -26,6 +26,7 @@ import zlib
 from sim import factory
 from sim import xtce_family as xf
 from sim.kernel import SimRaw, World
+from sim.procs import in_pristine_child
 from sim.runner import Outcome
 
 ID = "C16"
@@ -33,7 +34,7 @@ LEVEL = "exploration"
 ISOLATE = True
 RUN_WALL_S = 60
 TIERS = {
-    "quick": {"cases": 5_000, "episode": 1, "selftest": 48, "wall_cap_s": 900, "shrink_s": 90},
+    "quick": {"cases": 4_000, "episode": 1, "selftest": 48, "wall_cap_s": 900, "shrink_s": 90},
     "thorough": {"cases": 1_000_000, "episode": 1, "selftest": 512, "wall_cap_s": 4 * 3600, "shrink_s": 180},
 }
 RULE = ("each case is one freshly forked process running a drawn history of 2-12 operations over 1-3 drawn XTCE-family "
@@ -98,29 +99,15 @@ def decode_all(defn, pkts):
 
 
 def baseline_in_pristine_child(xml_bytes, pkts):
-    """Fork before this process has loaded anything; the child loads the canonical rendering as its
-    first and only load and returns (fingerprint, decodes)."""
-    r, w = os.pipe()
-    pid = os.fork()
-    if pid == 0:
-        os.close(r)
-        try:
-            with warnings.catch_warnings():
-                warnings.simplefilter("ignore")
-                d = XtcePacketDefinition.from_xtce(io.BytesIO(xml_bytes))
-            res = ("ok", xf.fingerprint(d), decode_all(d, pkts))
-        except BaseException as e:      # noqa: BLE001
-            res = ("error", f"{type(e).__name__}: {e}", None)
-        try:
-            with os.fdopen(w, "wb") as f:
-                pickle.dump(res, f)
-        finally:
-            os._exit(0)
-    os.close(w)
-    with os.fdopen(r, "rb") as f:
-        data = f.read()
-    os.waitpid(pid, 0)
-    return pickle.loads(data)
+    """Fork before this process has loaded anything; the child loads the canonical rendering as its first and only
+    load and returns ("ok", fingerprint, decodes) or ("error", text, None)."""
+    def job():
+        with warnings.catch_warnings():
+            warnings.simplefilter("ignore")
+            d = XtcePacketDefinition.from_xtce(io.BytesIO(xml_bytes))
+        return (xf.fingerprint(d), decode_all(d, pkts))
+    res = in_pristine_child(job, wall_s=30, raise_errors=False)
+    return ("ok", res[1][0], res[1][1]) if res[0] == "ok" else ("error", res[1], None)
 
 
 def mutate_bad(kind, doc, rd, ch, w):
@@ -170,27 +157,13 @@ def full_view(defn):
 def same_rendering_first(xml_bytes, prefix):
     """Baseline for the namespace bookkeeping and the serialisation: the SAME bytes loaded as the first and only
     load of a pristine process."""
-    r, w = os.pipe()
-    pid = os.fork()
-    if pid == 0:
-        os.close(r)
-        try:
-            with warnings.catch_warnings():
-                warnings.simplefilter("ignore")
-                d = XtcePacketDefinition.from_xtce(io.BytesIO(xml_bytes), xtce_ns_prefix=prefix)
-            res = ("ok", full_view(d))
-        except BaseException as e:      # noqa: BLE001
-            res = ("error", f"{type(e).__name__}: {e}")
-        try:
-            with os.fdopen(w, "wb") as f:
-                pickle.dump(res, f)
-        finally:
-            os._exit(0)
-    os.close(w)
-    with os.fdopen(r, "rb") as f:
-        data = f.read()
-    os.waitpid(pid, 0)
-    return pickle.loads(data)
+    def job():
+        with warnings.catch_warnings():
+            warnings.simplefilter("ignore")
+            d = XtcePacketDefinition.from_xtce(io.BytesIO(xml_bytes), xtce_ns_prefix=prefix)
+        return full_view(d)
+    res = in_pristine_child(job, wall_s=30, raise_errors=False)
+    return ("ok", res[1]) if res[0] == "ok" else ("error", res[1])
 
 
 def run(ch, render=False):
@@ -279,14 +252,14 @@ def run(ch, render=False):
                                            f"...{a[max(0, j - 60):j + 60]!r} vs ...{b[max(0, j - 60):j + 60]!r} ({rd_desc})",
                      "definition_differs")
             return False
+        sf = same_first[key]
+        fv = full_view(defn) if sf[0] == "ok" else None        # taken before decoding, as in the baseline child
         dec = decode_all(defn, pkts[i])
         if dec != base[i][2]:
             out.fail("decode_differs", f"{what}: probe packets decode differently from the load-it-first baseline "
                                        f"({rd_desc})", "decode_differs")
             return False
-        sf = same_first[key]
         if sf[0] == "ok":
-            fv = full_view(defn)
             if fv[0] != sf[1][0]:
                 a, b = repr(fv[0]), repr(sf[1][0])
                 j = 0
